@@ -115,7 +115,8 @@ func (c20) Case(c *core.Ctx) {
 		c.Harness("C20: decode failed: " + err.Error())
 		return
 	}
-	g := jv.GenOpt{Keys: []string{"a", "b", "c", "k", "-x", "x-y"}, MaxFan: 3, WideProb: 60, EmptyConts: true, Nulls: true, Scalars: func(rr *rand.Rand) interface{} {
+	nested := r.Intn(5) == 0
+	g := jv.GenOpt{Keys: []string{"a", "b", "c", "k", "-x", "x-y"}, MaxFan: 3, WideProb: 60, ListInList: nested, EmptyConts: true, Nulls: true, Scalars: func(rr *rand.Rand) interface{} {
 		switch rr.Intn(5) {
 		case 0:
 			return float64(rr.Intn(10))
@@ -241,7 +242,7 @@ func (c20) Case(c *core.Ctx) {
 		xml  bool
 	}{{"xml", mx, doc, true}, {"json", mj, jb, false}} {
 		m := side.m
-		segs := genPath(r, map[string]interface{}(m), pool, true, true)
+		segs := genPath(r, map[string]interface{}(m), pool, side.xml || !nested, true) // no indexed paths over lists nested in lists
 		for i := range segs {
 			if segs[i].name == "*" {
 				segs[i].idx = -1
@@ -493,6 +494,81 @@ func (c20) Case(c *core.Ctx) {
 		}, func(error) bool { gotJ = append(gotJ, "ERR"); return false })
 		cmp("x2j-wrapper.XmlMsgsFromFileAsJson", e == nil && strings.Join(gotJ, "|") == strings.Join(want, "|"), core.D{"stream": string(stream), "observed": fmt.Sprint(gotJ), "expected": fmt.Sprint(want)})
 		os.Remove(fn)
+		// reader wrappers called repeatedly on ONE multi-document reader: each call must leave the reader where the core would
+		{
+			var gotX, gotW, gotT []string
+			rd := plainReader{bytes.NewReader(stream)}
+			for i := 0; i < len(docs)+2; i++ {
+				_, j, e := x2j.XmlReaderToJson(rd)
+				if e != nil {
+					gotX = append(gotX, "END")
+					break
+				}
+				var v interface{}
+				json.Unmarshal(j, &v)
+				gotX = append(gotX, jv.Fp(v))
+			}
+			rd = plainReader{bytes.NewReader(stream)}
+			for i := 0; i < len(docs)+2; i++ {
+				var w bytes.Buffer
+				_, _, e := x2j.XmlReaderToJsonWriter(rd, &w)
+				if e != nil {
+					gotW = append(gotW, "END")
+					break
+				}
+				var v interface{}
+				json.Unmarshal(w.Bytes(), &v)
+				gotW = append(gotW, jv.Fp(v))
+			}
+			rd = plainReader{bytes.NewReader(stream)}
+			for i := 0; i < len(docs)+2; i++ {
+				s, e := x2jw.ToJson(rd)
+				if e != nil || s == "" {
+					gotT = append(gotT, "END")
+					break
+				}
+				var v interface{}
+				json.Unmarshal([]byte(s), &v)
+				gotT = append(gotT, jv.Fp(v))
+			}
+			wantSeq := strings.Join(append(append([]string{}, want...), "END"), "|")
+			cmp("x2j.XmlReaderToJson (same reader, repeated)", strings.Join(gotX, "|") == wantSeq, core.D{"stream": string(stream), "observed": fmt.Sprint(gotX), "expected": wantSeq})
+			cmp("x2j.XmlReaderToJsonWriter (same reader, repeated)", strings.Join(gotW, "|") == wantSeq, core.D{"stream": string(stream), "observed": fmt.Sprint(gotW), "expected": wantSeq})
+			cmp("x2j-wrapper.ToJson (same reader, repeated)", strings.Join(gotT, "|") == wantSeq, core.D{"stream": string(stream), "observed": fmt.Sprint(gotT), "expected": wantSeq})
+			// JSON side
+			var jstream []byte
+			var jwant []string
+			for i, n := 0, 1+r.Intn(3); i < n; i++ {
+				mm := map[string]interface{}{"k" + fmt.Sprint(i): []string{"v", "<&>", "x y"}[r.Intn(3)], "n": float64(i)}
+				b, _ := json.Marshal(mm)
+				jstream = append(jstream, b...)
+				jstream = append(jstream, []string{"", "\n", " "}[r.Intn(3)]...)
+				x, _ := mxj.Map(mm).Xml()
+				jwant = append(jwant, string(x))
+			}
+			var gotJ1, gotJ2 []string
+			jr := plainReader{bytes.NewReader(jstream)}
+			for i := 0; i < len(jwant)+2; i++ {
+				_, x, e := j2x.JsonReaderToXml(jr)
+				if e != nil {
+					gotJ1 = append(gotJ1, "END")
+					break
+				}
+				gotJ1 = append(gotJ1, string(x))
+			}
+			jr = plainReader{bytes.NewReader(jstream)}
+			for i := 0; i < len(jwant)+2; i++ {
+				var w bytes.Buffer
+				if e := j2x.JsonReaderToXmlWriter(jr, &w); e != nil {
+					gotJ2 = append(gotJ2, "END")
+					break
+				}
+				gotJ2 = append(gotJ2, w.String())
+			}
+			jwantSeq := strings.Join(append(append([]string{}, jwant...), "END"), "|")
+			cmp("j2x.JsonReaderToXml (same reader, repeated)", strings.Join(gotJ1, "|") == jwantSeq, core.D{"stream": string(jstream), "observed": fmt.Sprint(gotJ1), "expected": jwantSeq})
+			cmp("j2x.JsonReaderToXmlWriter (same reader, repeated)", strings.Join(gotJ2, "|") == jwantSeq, core.D{"stream": string(jstream), "observed": fmt.Sprint(gotJ2), "expected": jwantSeq})
+		}
 		bb := bytes.NewBuffer(append([]byte{}, docs[0]...))
 		m0, e0 := x2jw.XmlBufferToMap(bb)
 		cmp("x2j-wrapper.XmlBufferToMap", e0 == nil && jv.Fp(m0) == want[0], nil)
